@@ -158,6 +158,13 @@ def mod(x: Lin, m: int) -> Lin:
 def floordiv(x: Lin, y: Lin) -> Lin:
     if x.is_const() and y.is_const() and y.const != 0:
         return Lin(x.const // y.const)
+    # (k*X + c) // k = X for 0 <= c < k and integer X (every coefficient a multiple of k): ceil-division of an exact multiple
+    if y.is_const() and y.const > 0 and x.terms and all(c % y.const == 0 for c in x.terms.values()) and 0 <= x.const % y.const == x.const - (x.const // y.const) * y.const:
+        k = y.const
+        q = Lin(x.const // k)
+        for a, c in x.terms.items():
+            q = q + Lin.atom(a).scale(c // k)
+        return q
     return Lin.atom(("floordiv", x, y))
 
 
